@@ -32,7 +32,7 @@ DESCRIBE = {
     "stub": ["randn / rand / shuffle served", "clock virtual", "stdout captured"],
     "assumptions": ["tolerance rtol 1e-4 / atol 1e-6, except variance formulas that cancel in float32 (post-burn-in dispersion, noise variance), compared through a forward error bound "
                     "32*eps32*(sum of |terms|)", "cohorts have >= 3 individuals", "a LeaspyConvergenceError on a collapsed variance is a legitimate abort",
-                    "mixture model excluded (no independent statement of its weighted rules beyond probabilities summing to one)"],
+                    "mixture model: population means, noise level and probabilities (= mean cluster responsibilities, summing to one) are checked; its responsibility-weighted means / deviations have no independent statement and are skipped (counted)"],
 }
 EPS32 = float(np.finfo(np.float32).eps)
 
@@ -43,6 +43,9 @@ def make_plan(seed: int, tier: str) -> dict:
     cfg = fitsim.gen_fit_cfg(rng.stream("world"), max_iter=10 if tier == "quick" else 40)
     cfg["n"] = st.choice([3, 5, 7])
     cfg["missing"] = st.choice([0.0, 0.15, 0.3, 0.45])
+    if st.bernoulli(0.08):
+        cfg["kind"] = "mixture"
+        cfg["n"] = max(cfg["n"], 5)
     return {"seed": seed, "tier": tier, "engine": "fitsim_c04", "world": cfg}
 
 
@@ -61,6 +64,12 @@ class C04Monitor(fitsim.Monitor):
     def before_update(self, w, k, S, burn_in):
         s = w.state
         self.old = {p: s[p] for p in w.param_names()}
+        self.resp = None
+        if self.cfg["kind"] == "mixture":
+            # cluster responsibilities at the pre-step state (from scratch)
+            r = w.evaluator().value("nll_regul_ind_sum_ind")
+            r = r.value if hasattr(r, "weight") else r
+            self.resp = torch.nn.Softmax(dim=1)(torch.clamp(-r.double(), -100.0)).numpy()
         self.old_hyper = {}
         for nm in ("xi_mean", "tau_mean", "sources_mean"):
             if nm not in self.old and nm in s.dag:
@@ -71,6 +80,11 @@ class C04Monitor(fitsim.Monitor):
         s = w.state
         new = {p: s[p] for p in w.param_names()}
         old = self.old
+        # the phase is derived from the configuration (k <= n_burn_in), not from the flag the algorithm hands to the rules
+        flag = burn_in
+        burn_in = k <= w.algo.algo_parameters["n_burn_in_iter"]
+        if bool(flag) != burn_in:
+            C["probe.flag_differs_from_phase"] += 1
         C["probe.update_in_burn_in" if burn_in else "probe.update_after_burn_in"] += 1
         pops = set(w.pop_names())
         inds = set(w.ind_names())
@@ -78,6 +92,9 @@ class C04Monitor(fitsim.Monitor):
         for p in sorted(new):
             got = rm.f64(new[p])
             base = p[: -len("_mean")] if p.endswith("_mean") else (p[: -len("_std")] if p.endswith("_std") else p)
+            if self.cfg["kind"] == "mixture" and p != "probs" and not (p.endswith("_mean") and base in pops) and p != "noise_std":
+                C["skip.mixture_weighted_rule:" + p] += 1   # responsibility-weighted rules: no independent statement
+                continue
             if p.endswith("_mean") and base in pops:
                 exp = rm.f64(S[base])
                 self._cmp(p, got, exp, where, "prior_mean_of_population_variable")
@@ -118,7 +135,14 @@ class C04Monitor(fitsim.Monitor):
             elif p == "noise_std":
                 self._noise(w, S, got, where)
             elif p == "probs":
-                pass
+                if not np.isfinite(got).all() or self.resp is None or not np.isfinite(self.resp).all():
+                    C["skip.mixture_state_not_finite"] += 1   # the (experimental) mixture fit diverged on this tiny cohort: nothing to compare
+                    continue
+                C["probe.mixture_probabilities_checked"] += 1
+                if abs(float(got.sum()) - 1.0) > 1e-5:
+                    violation(out, "mixture_probabilities", "probabilities_do_not_sum_to_one", f"{where}: probs = {got.tolist()}")
+                elif self.resp is not None and not np.allclose(got.reshape(-1), self.resp.mean(axis=0), rtol=1e-4, atol=1e-6):
+                    violation(out, "mixture_probabilities", "not_mean_cluster_responsibilities", f"{where}: probs = {got.tolist()} vs mean responsibilities {self.resp.mean(axis=0).tolist()}")
             else:
                 C["skip.param:" + p] += 1
         w.log.add("theta", k, hashlib.sha1("".join(tdigest(new[p]) for p in sorted(new)).encode()).hexdigest()[:10])
